@@ -213,10 +213,10 @@ theorem close_flow (w w' : World) (env : Env) (s : Nat) (f : Funds) (v l : Nat)
 
 /-! ### OpenPosition -/
 
-/-- the message tree of a successful OpenPosition: increase (stored size zero, or same direction) / reduce
+/-- the message tree of a successful OpenPosition (with the message `open_position` dispatched): increase (stored size zero, or same direction) / reduce
     (one `swap_input` carrying the caller's limit, band enforced), or reversal — size non-zero, opposite direction — (`swap_output` of the whole position without limit, then either the
     position is closed or the remainder is opened by a second `swap_input` without limit) -/
-theorem open_flow (w w' : World) (env : Env) (s : Nat) (f : Funds) (v : Nat) (side : Side) (m l b : Nat)
+theorem open_flow_msgs (w w' : World) (env : Env) (s : Nat) (f : Funds) (v : Nat) (side : Side) (m l b : Nat)
     (h : applyTx w env s f (.engine (.openPosition v side m l b)) = .ok w') :
     ∃ (w1 : World) (e1 : E) (x : Vamm.V) (sw : TmpSwap) (msgs : List SubMsg),
       Start w w1 env ∧ (∀ y ∈ w1.log, y.1 = s) ∧ w.vamm? v = some x
@@ -227,6 +227,7 @@ theorem open_flow (w w' : World) (env : Env) (s : Nat) (f : Funds) (v : Nat) (si
                                           ∨ (getPosition env w.engine v s side).direction = sideToDirection side))
                  ∨ (id = REPLY_DECREASE ∧ ¬ (getPosition env w.engine v s side).size.isZero = true
                       ∧ (getPosition env w.engine v s side).direction ≠ sideToDirection side))
+            ∧ msgs = [swapInputMsg v side (m * l / w.engine.cfg.decimals) b false id]
             ∧ ∃ (x' : Vamm.V) (bo : Nat) (w2 : World) (e3 : E) (subs3 : List SubMsg),
               Vamm.swapInput x env ENGINE (sideToDirection side) (m * l / w.engine.cfg.decimals) b false
                   = .ok (x', ⟨true, m * l / w.engine.cfg.decimals, bo⟩)
@@ -234,6 +235,8 @@ theorem open_flow (w w' : World) (env : Env) (s : Nat) (f : Funds) (v : Nat) (si
               ∧ AllCE subs3 ∧ w'.engine = e3 ∧ w'.vamm? v = some x')
         ∨ ((¬ (getPosition env w.engine v s side).size.isZero = true
               ∧ (getPosition env w.engine v s side).direction ≠ sideToDirection side)
+            ∧ msgs = [swapOutputMsg v (directionToSide (getPosition env w.engine v s side).direction)
+                        (getPosition env w.engine v s side).size.value 0 REPLY_REVERSE]
             ∧ ∃ (x1 : Vamm.V) (qo : Nat) (w2 : World) (e3 : E) (subs3 : List SubMsg),
               Vamm.swapOutput x env ENGINE (getPosition env w.engine v s side).direction
                   (getPosition env w.engine v s side).size.value 0
@@ -290,7 +293,7 @@ theorem open_flow (w w' : World) (env : Env) (s : Nat) (f : Funds) (v : Nat) (si
       · rw [hm] at h1; injection h1 with h1; injection h1 with h1; cases h1
     obtain ⟨x, x', bo, w2, e3, subs3, hxv, r⟩ := hsingle _ (Or.inl rfl) hm'
     exact ⟨w1, e1, x, tmp, subs, hst, hlog, hxv, hex', htmp, tv, tt, ts, hpos, hcfg,
-      Or.inl ⟨_, Or.inl ⟨rfl, hdir⟩, x', bo, w2, e3, subs3, r⟩⟩
+      Or.inl ⟨_, Or.inl ⟨rfl, hdir⟩, hm', x', bo, w2, e3, subs3, r⟩⟩
   · have hm' : subs = [swapInputMsg v side (m * l / w.engine.cfg.decimals) b false REPLY_DECREASE] := by
       rcases hmsgs with h1 | h1 | h1
       · rw [hm] at h1; injection h1 with h1; injection h1 with _ h1; cases h1
@@ -298,8 +301,9 @@ theorem open_flow (w w' : World) (env : Env) (s : Nat) (f : Funds) (v : Nat) (si
       · rw [hm] at h1; injection h1 with h1; injection h1 with h1; cases h1
     obtain ⟨x, x', bo, w2, e3, subs3, hxv, r⟩ := hsingle _ (Or.inr rfl) hm'
     exact ⟨w1, e1, x, tmp, subs, hst, hlog, hxv, hex', htmp, tv, tt, ts, hpos, hcfg,
-      Or.inl ⟨_, Or.inr ⟨rfl, hnz, hdir⟩, x', bo, w2, e3, subs3, r⟩⟩
-  · rw [hm] at hrun
+      Or.inl ⟨_, Or.inr ⟨rfl, hnz, hdir⟩, hm', x', bo, w2, e3, subs3, r⟩⟩
+  · have hm0 := hm
+    rw [hm] at hrun
     obtain ⟨fuel', w2, ev, e3, subs3, hx, hrep, hs2⟩ := execSubs_single _ _ _ _ rfl hrun
     obtain ⟨x0, x1, o, hx0, hsw, hw2, rfl⟩ := execMsg_swapOutput_inv _ _ _ _ _ _ _ _ _ hx
     have hx0' : w.vamm? v = some x0 := (hst.vamm? v) ▸ hx0
@@ -316,7 +320,7 @@ theorem open_flow (w w' : World) (env : Env) (s : Nat) (f : Funds) (v : Nat) (si
       EngineMoney.reversePositionReply_fees _ _ _ _ _ _ tmp htmp hrep'
     have hfce : AllCE fm := MirrorP.transferFees_allCE' _ _ _ _ _ _ hfm
     refine ⟨w1, e1, x0, tmp, subs, hst, hlog, hx0', hex', htmp, tv, tt, ts, hpos, hcfg,
-      Or.inr ⟨⟨hnz, hdir⟩, x1, qo, w2, e3, subs3, hsw, hrep', ?_⟩⟩
+      Or.inr ⟨⟨hnz, hdir⟩, hm0, x1, qo, w2, e3, subs3, hsw, hrep', ?_⟩⟩
     rcases hlast with ⟨hnone, _, amt, rfl⟩ | ⟨sw', hs', _, htr, hvm, hsd', _, rfl⟩
     · left
       have hce : AllCE subs3 := by
@@ -349,5 +353,46 @@ theorem open_flow (w w' : World) (env : Env) (s : Nat) (f : Funds) (v : Nat) (si
       refine ⟨fm, sw', x2, bo2, w4, e5, subs5, ?_, hfce, hs', hvm.trans tv, htr.trans tt, hsd'.trans ts, hsw4,
         hrep4', hce5, c1, by rw [c2 v]; exact hvm4⟩
       rw [hmsgs3, tv, ts]
+
+/-- `open_flow_msgs` without the dispatched message -/
+theorem open_flow (w w' : World) (env : Env) (s : Nat) (f : Funds) (v : Nat) (side : Side) (m l b : Nat)
+    (h : applyTx w env s f (.engine (.openPosition v side m l b)) = .ok w') :
+    ∃ (w1 : World) (e1 : E) (x : Vamm.V) (sw : TmpSwap) (msgs : List SubMsg),
+      Start w w1 env ∧ (∀ y ∈ w1.log, y.1 = s) ∧ w.vamm? v = some x
+      ∧ openPosition w1.q w.engine env s f v side m l b = .ok (e1, msgs)
+      ∧ e1.tmpSwap = some sw ∧ sw.vamm = v ∧ sw.trader = s ∧ sw.side = side
+      ∧ e1.positions = w.engine.positions ∧ e1.cfg = w.engine.cfg
+      ∧ ((∃ id, ((id = REPLY_INCREASE ∧ ((getPosition env w.engine v s side).size.isZero = true
+                                          ∨ (getPosition env w.engine v s side).direction = sideToDirection side))
+                 ∨ (id = REPLY_DECREASE ∧ ¬ (getPosition env w.engine v s side).size.isZero = true
+                      ∧ (getPosition env w.engine v s side).direction ≠ sideToDirection side))
+            ∧ ∃ (x' : Vamm.V) (bo : Nat) (w2 : World) (e3 : E) (subs3 : List SubMsg),
+              Vamm.swapInput x env ENGINE (sideToDirection side) (m * l / w.engine.cfg.decimals) b false
+                  = .ok (x', ⟨true, m * l / w.engine.cfg.decimals, bo⟩)
+              ∧ updatePositionReply w2.q e1 env (m * l / w.engine.cfg.decimals) bo id = .ok (e3, subs3)
+              ∧ AllCE subs3 ∧ w'.engine = e3 ∧ w'.vamm? v = some x')
+        ∨ ((¬ (getPosition env w.engine v s side).size.isZero = true
+              ∧ (getPosition env w.engine v s side).direction ≠ sideToDirection side)
+            ∧ ∃ (x1 : Vamm.V) (qo : Nat) (w2 : World) (e3 : E) (subs3 : List SubMsg),
+              Vamm.swapOutput x env ENGINE (getPosition env w.engine v s side).direction
+                  (getPosition env w.engine v s side).size.value 0
+                  = .ok (x1, ⟨false, qo, (getPosition env w.engine v s side).size.value⟩)
+              ∧ reversePositionReply w2.q e1 env qo = .ok (e3, subs3)
+              ∧ ((e3.tmpSwap = none ∧ AllCE subs3 ∧ w'.engine = e3 ∧ w'.vamm? v = some x1
+                    ∧ w'.log = w1.log ++ subs3.map (fun m => collEntry w.ifund.engine m.msg))
+                 ∨ (∃ (fm : List SubMsg) (sw' : TmpSwap) (x2 : Vamm.V) (bo2 : Nat) (w4 : World) (e5 : E)
+                      (subs5 : List SubMsg),
+                      subs3 = fm ++ [swapInputMsg v side sw'.openNotional 0 false REPLY_INCREASE]
+                      ∧ AllCE fm ∧ e3.tmpSwap = some sw' ∧ sw'.vamm = v ∧ sw'.trader = s ∧ sw'.side = side
+                      ∧ Vamm.swapInput x1 env ENGINE (sideToDirection side) sw'.openNotional 0 false
+                          = .ok (x2, ⟨true, sw'.openNotional, bo2⟩)
+                      ∧ updatePositionReply w4.q e3 env sw'.openNotional bo2 REPLY_INCREASE = .ok (e5, subs5)
+                      ∧ AllCE subs5 ∧ w'.engine = e5 ∧ w'.vamm? v = some x2)))) := by
+  obtain ⟨w1, e1, x, sw, msgs, h1, h2, h3, h4, h5, h6, h7, h8, h9, h10, hcase⟩ :=
+    open_flow_msgs w w' env s f v side m l b h
+  refine ⟨w1, e1, x, sw, msgs, h1, h2, h3, h4, h5, h6, h7, h8, h9, h10, ?_⟩
+  rcases hcase with ⟨id, hid, _, r⟩ | ⟨hc, _, r⟩
+  · exact Or.inl ⟨id, hid, r⟩
+  · exact Or.inr ⟨hc, r⟩
 
 end Perp.Props.SatFlows
